@@ -23,9 +23,10 @@ VARIABLES scen,     \* [flags, frames, segs]: requested flag bits; server's repl
           inflight, \* symbols written by the server, not yet read by the client
           rbuf,     \* client's buffered reader
           res,      \* results of the receive calls so far
-          cut       \* ghost: frames cut by the client
+          cut,      \* ghost: frames cut by the client
+          again     \* further Sends on the same connection while replies are outstanding (pipelining)
 
-vars == <<scen, sent, wire, sseg, sclosed, inflight, rbuf, res, cut>>
+vars == <<scen, sent, wire, sseg, sclosed, inflight, rbuf, res, cut, again>>
 
 (* flag bits as in connection.go:17-22 *)
 HasMore(f) == f.more
@@ -53,7 +54,7 @@ UEOF == [k |-> "ueof", continues |-> FALSE, name |-> "", typed |-> "", field |->
 
 InitWith(S) ==
   /\ scen = S /\ sent = "none" /\ wire = <<>> /\ sseg = 0 /\ sclosed = FALSE
-  /\ inflight = <<>> /\ rbuf = <<>> /\ res = <<>> /\ cut = <<>>
+  /\ inflight = <<>> /\ rbuf = <<>> /\ res = <<>> /\ cut = <<>> /\ again = 0
 
 (* Send: refuse forbidden combinations before anything is written *)
 Send ==
@@ -62,7 +63,7 @@ Send ==
      IF (HasMore(f) /\ HasOneway(f)) \/ (HasMore(f) /\ HasUpgrade(f))
      THEN sent' = "refused" /\ UNCHANGED wire
      ELSE sent' = "ok" /\ wire' = <<[more |-> f.more, oneway |-> f.oneway, upgrade |-> f.upgrade]>>
-  /\ UNCHANGED <<scen, sseg, sclosed, inflight, rbuf, res, cut>>
+  /\ UNCHANGED <<again, scen, sseg, sclosed, inflight, rbuf, res, cut>>
 
 SrvWrite ==
   /\ sent = "ok" /\ ~sclosed /\ sseg < Len(scen.segs)
@@ -70,11 +71,11 @@ SrvWrite ==
          n == scen.segs[sseg + 1] IN
      inflight' = inflight \o SubSeq(Symbols(scen.frames), a + 1, a + n)
   /\ sseg' = sseg + 1
-  /\ UNCHANGED <<scen, sent, wire, sclosed, rbuf, res, cut>>
+  /\ UNCHANGED <<again, scen, sent, wire, sclosed, rbuf, res, cut>>
 SrvClose ==
   /\ sent = "ok" /\ ~sclosed /\ sseg = Len(scen.segs)
   /\ sclosed' = TRUE
-  /\ UNCHANGED <<scen, sent, wire, sseg, inflight, rbuf, res, cut>>
+  /\ UNCHANGED <<again, scen, sent, wire, sseg, inflight, rbuf, res, cut>>
 
 HasNul(s) == \E i \in 1..Len(s) : s[i].nul
 FirstNul(s) == Min({i \in 1..Len(s) : s[i].nul})
@@ -84,7 +85,7 @@ CFill ==            \* one read into the buffered reader (while a receive call i
   /\ \E n \in 1..Len(inflight) :
        /\ rbuf' = rbuf \o SubSeq(inflight, 1, n)
        /\ inflight' = SubSeq(inflight, n + 1, Len(inflight))
-  /\ UNCHANGED <<scen, sent, wire, sseg, sclosed, res, cut>>
+  /\ UNCHANGED <<again, scen, sent, wire, sseg, sclosed, res, cut>>
 
 (* the caller makes one receive call per frame it may expect, plus one *)
 MoreCalls == Len(res) <= Len(scen.frames)
@@ -95,14 +96,21 @@ RecvFrame ==        \* receive returns: the next complete frame, decoded
      /\ res' = Append(res, Decode(scen.frames[fi]))
      /\ cut' = Append(cut, [f |-> fi, body |-> SubSeq(rbuf, 1, p - 1)])
      /\ rbuf' = SubSeq(rbuf, p + 1, Len(rbuf))
-  /\ UNCHANGED <<scen, sent, wire, sseg, sclosed, inflight>>
+  /\ UNCHANGED <<again, scen, sent, wire, sseg, sclosed, inflight>>
 RecvEOF ==          \* the stream ended before the frame's NUL: unexpected EOF, the partial bytes are consumed
   /\ sent = "ok" /\ ~HasNul(rbuf) /\ inflight = <<>> /\ sclosed /\ MoreCalls
   /\ res' = Append(res, UEOF)
   /\ rbuf' = <<>>
-  /\ UNCHANGED <<scen, sent, wire, sseg, sclosed, inflight, cut>>
+  /\ UNCHANGED <<again, scen, sent, wire, sseg, sclosed, inflight, cut>>
 
-Next == Send \/ SrvWrite \/ SrvClose \/ CFill \/ RecvFrame \/ RecvEOF
+(* a further Send on the connection (pipelining): it writes, and leaves everything received so far - also what *)
+(* sits in the buffered reader - where it is                                                                *)
+SendAgain ==
+  /\ sent = "ok" /\ again < 3
+  /\ again' = again + 1
+  /\ UNCHANGED <<scen, sent, wire, sseg, sclosed, inflight, rbuf, res, cut>>
+
+Next == Send \/ SrvWrite \/ SrvClose \/ CFill \/ RecvFrame \/ RecvEOF \/ SendAgain
 
 ---------------------------------------------------------------------------
 (* sequential meaning: results of the first n receive calls *)
